@@ -553,6 +553,16 @@ def gen_list_all(seed, big):
     for d, e in zip(docs, expect):
         src = d % {'rm': RM, 'tl': TL}
         out.append((dict(cfg(), mode='list_all_json', source=src, ds='<', de='>', _pair='list_json'), ('LIST_ALL', src, e)))
+    # many pending elements under a wrapper that is in neither status (unregistered / skipped / ready unwrap body),
+    # behind pending siblings: all listed, in source order
+    six = ''.join("<%(rm)s name='off'>\nflag " + str(i) + "\n</%(rm)s>\n" for i in range(6))
+    nine = ''.join("<%(rm)s name='off'>\nflag " + str(i) + "\n</%(rm)s>\n" for i in range(9))
+    for d, e in (("<%(rm)s name='off'>\nhead\n</%(rm)s>\n<section>\n" + six + "</section>\ntail\n", (7, 0)),
+                 ("<%(rm)s name='off'>\nh1\n</%(rm)s>\n<%(rm)s name='off'>\nh2\n</%(rm)s>\n<%(tl)s skip to='2001-01-01 00:00:00'>\n" + nine + "</%(tl)s>\n", (11, 0)),
+                 ("<%(tl)s to='2000-01-01 00:00:00'>\n<%(rm)s name='off'>\ninner\n</%(rm)s>\n</%(tl)s>\n<section>\n<div>\n" + six + "</div>\n</section>\n", (6, 1)),
+                 ("<%(rm)s name='off'>\nhead\n</%(rm)s>\n<%(rm)s name='f1' unwrap-block>\n{\n" + six + "}\n</%(rm)s>\n", (7, 2))):
+        src = d % {'rm': RM, 'tl': TL}
+        out.append((dict(cfg(), mode='list_all_json', source=src, ds='<', de='>', _pair='list_json'), ('LIST_ALL', src, e)))
     # an EMPTY target set (the command line's default): removal-markers are still registered elements - all Pending
     for d, e in (("head\n<%(rm)s name='f1'>\nbody\n</%(rm)s>\ntail\n", (1, 0)),
                  ("<%(rm)s name='a'>\nx\n</%(rm)s>\n<%(tl)s to='2001-01-01 00:00:00'>\ny\n</%(tl)s>\n<%(rm)s name='b' unwrap-block>\n{\n  <%(tl)s to='2999-01-01 00:00:00'>\n  z\n  </%(tl)s>\n}\n</%(rm)s>\n", (4, 1))):
@@ -1341,6 +1351,31 @@ def gen_blanklines(seed, big):
     return out
 
 
+def gen_blanklines_dedented(seed, big):
+    """C13, blank-line count when the neighbour lines are indented differently from the removed block's tags (the line
+    behind the block is shallower or deeper than the tags): still a + b - 1 (both > 0), a, or b"""
+    out = []
+    for iX, iT, iY in (('  ', '  ', ''), ('\t', '\t\t', '\t'), ('', '    ', '  '), ('  ', '  ', '    '), ('    ', '  ', ''), ('', '  ', '')):
+        for b in range(0, 4):
+            for a in range(0, 3):
+                for blank in ('', '  ', '\t'):
+                    src = '<div>\n' + iX + '<p>keep</p> é\n' + (blank + '\n') * b + iT + f"<{RM} name='f1'>\n" + iT + '<p>old</p>\n' + iT + f"</{RM}>\n" + (blank + '\n') * a + iY + '</div>\n'
+                    want = a + b - (1 if a > 0 and b > 0 else 0)
+                    def oracle(r, want=want, iX=iX, iY=iY):
+                        if not r.get('ok'):
+                            return 'clean panicked: ' + str(r.get('panic'))[:160]
+                        lines = r['output'].split('\n')
+                        nb = [l for l in lines if l.strip(WS)]
+                        if nb != ['<div>', iX + '<p>keep</p> é', iY + '</div>']:
+                            return f'surviving lines not intact: {nb}'
+                        i0 = lines.index(iX + '<p>keep</p> é'); i1 = len(lines) - 1 - lines[::-1].index(iY + '</div>')
+                        if i1 - i0 - 1 != want:
+                            return f'{i1 - i0 - 1} blank lines remain, expected {want} (neighbour indents {iX!r} / {iY!r}): {r["output"]!r}'
+                        return None
+                    out.append((dict(cfg(), mode='clean', source=src, ds='<', de='>'), oracle))
+    return out
+
+
 def gen_blanklines_wide(seed, big):
     """C13, second half, with indentation and whitespace-only lines wider than any fixed scan window (65, 70, 130, 300
     blanks; tabs too): with b blank lines before and a behind a removed block, a + b - 1 (both > 0) remain"""
@@ -1435,7 +1470,7 @@ def gen_list_regions(seed, big):
         final_nl = rnd.random() < 0.6
         for bi in range(nblocks):
             for _ in range(rnd.randint(0, 2)):
-                lines.append(rnd.choice(['a();', '  b = 1; // é', '\tc', 'これ', '\x0bold_style();', '\x0c', 'x\x0b\x0b', '\x0b']))
+                lines.append(rnd.choice(['a();', '  b = 1; // é', '\tc', 'これ', '\x0bold_style();', '\x0c', 'x\x0b\x0b', '\x0b', "const sep = 'a\u2028b';", '\u0085', 'x\u2029y', '// \u0085 NEL \u2028 LS']))
             ind = rnd.choice(['', '  ', '\t'])
             kind = rnd.choice(['block', 'inline', 'inline_multi', 'pending', 'unwrap'])
             if kind == 'unwrap':
@@ -1672,7 +1707,7 @@ def _back_same(t, d):
 GENERATORS = {
     'C01': [gen_totality], 'C04': [gen_identity, gen_identity_unwrappable, gen_identity_unrecognised, gen_identity_unexpired, gen_identity_decisions, gen_tag_whitespace, gen_case_sensitive, gen_equal_tag_names], 'C07': [gen_partition], 'C08': [gen_recognition, gen_recognition_entry], 'C05': [gen_expiry, gen_env_independent_expiry], 'C06': [gen_marker, gen_tag_whitespace, gen_case_sensitive, gen_equal_tag_names],
     'C09': [gen_grammar, gen_opaque_decisions], 'C10': [gen_pairing], 'C02': [gen_blocks, gen_inline, gen_nested_text_survives, gen_unwrap_crlf_text, gen_odd_whitespace_lines, gen_tag_whitespace, gen_large_clean, gen_case_sensitive, gen_unwrap_inline_mix], 'C03': [gen_blocks, gen_inline, gen_nested_text_survives, gen_unwrap_crlf_text, gen_closer_attrs, gen_large_clean, gen_doubled_delims], 'C11': [gen_blocks, gen_unwrap_wrappers, gen_unwrap_four_lines, gen_identity_unwrappable, gen_unwrap_crlf_text, gen_unwrap_comments, gen_unwrap_backslash], 'C17': [gen_list_all],
-    'C12': [gen_dedent, gen_dedent_nested, gen_dedent_crlf], 'C13': [gen_blanklines, gen_blanklines_wide, gen_lines_intact, gen_odd_whitespace_lines], 'C14': [gen_inline, gen_dedent_nested, gen_unwrap_lines_intact, gen_unwrap_lines_intact_crlf, gen_unwrap_inline_mix], 'C15': [gen_list_regions, gen_env_independent_list, gen_large_list],
+    'C12': [gen_dedent, gen_dedent_nested, gen_dedent_crlf], 'C13': [gen_blanklines, gen_blanklines_dedented, gen_blanklines_wide, gen_lines_intact, gen_odd_whitespace_lines], 'C14': [gen_inline, gen_dedent_nested, gen_unwrap_lines_intact, gen_unwrap_lines_intact_crlf, gen_unwrap_inline_mix], 'C15': [gen_list_regions, gen_env_independent_list, gen_large_list],
 }
 
 GENERATORS['C01'] = GENERATORS['C01'] + [gen_totality_everywhere, gen_totality_extreme_dates]
